@@ -13,6 +13,12 @@ int wglue_preopen(const char* path, unsigned* fd);
 int wglue_native_fd(unsigned wasiFD, int* fd, int* has_dir, const char** path);
 int wglue_path_max(void);
 int wglue_nothread(void);
+/* additional in-process modules for thread-spawn: 1 = module B (own wasi_thread_start), 2 = module C (no such export) */
+#define WGLUE_FAKE_MAX 256
+typedef struct WglueFakeStart { unsigned tid, arg; int which; int on_child; } WglueFakeStart;
+extern WglueFakeStart wglue_fake_starts[WGLUE_FAKE_MAX];
+extern int wglue_fake_nstarts;
+int wglue_fake_spawn(int which, unsigned arg);
 #ifdef __cplusplus
 }
 #endif
